@@ -248,7 +248,7 @@ Proof.
   - unfold builtin_system; destruct_matches; cbn; discriminate.
   - unfold next_line_via. pose proof (next_line_no_fuel c e s) as H.
     destruct (next_line c e s) as [[e1 o1] s1]. cbn in H.
-    destruct o1; destruct v; cbn; try discriminate. congruence. congruence.
+    destruct o1 as [| |x|]; destruct v; try destruct x; cbn; try discriminate; congruence.
   - unfold builtin_close; destruct_matches; cbn; discriminate.
   - cbn. discriminate.
   - destruct (maxFieldIndex <? n); cbn; discriminate.
@@ -395,11 +395,11 @@ Proof.
   - apply nll_denied; assumption.
 Qed.
 
-(* every request except the plain getline that reaches a file operand *)
-Theorem denied_attempt_stops_partial : forall c e s r,
-  r <> NextLine ViaGetline -> attempts c e s r -> denied_stops c e s r.
+(* every request, plain getline included *)
+Theorem denied_attempt_stops : forall c e s r,
+  attempts c e s r -> denied_stops c e s r.
 Proof.
-  intros c e s r Hr. unfold attempts, denied_stops.
+  intros c e s r. unfold attempts, denied_stops.
   destruct r; cbn [io_step]; intros Hex.
   - (* OpenWrite *)
     unfold get_output_stream in *. cbn [permissive noFileWrites noExec] in Hex.
@@ -442,19 +442,18 @@ Proof.
     unfold builtin_system in *. cbn [permissive noExec] in Hex.
     destruct (noExec c) eqn:Hx; [eexists; cbn; repeat split; reflexivity|].
     exfalso. revert Hex. cbn. unfold forbidden. cbn. rewrite Hx, ?andb_false_r. cbn. discriminate.
-  - (* NextLine *)
-    destruct v; [|congruence].
+  - (* NextLine: both callers *)
     unfold next_line_via in *.
     destruct (noFileReads c) eqn:Hnr.
     + assert (Hex' : existsb (forbidden c) (fst (fst (next_line (permissive c) e s))) = true).
-      { destruct (next_line (permissive c) e s) as [[e1 o1] s1]. destruct o1; exact Hex. }
+      { destruct (next_line (permissive c) e s) as [[e1 o1] s1]. destruct o1; destruct v; exact Hex. }
       pose proof (next_line_denied c e s Hnr Hex') as Hd.
       destruct (next_line c e s) as [[e1 o1] s1]. cbn in Hd. destruct Hd as [-> Hstd].
-      exists ENoFileReads. cbn. split; [reflexivity | split; [reflexivity | exact Hstd]].
+      exists ENoFileReads. destruct v; cbn; (split; [reflexivity | split; [reflexivity | exact Hstd]]).
     + (* reads are allowed: nextLine only uses standard input or opens for reading *)
       exfalso.
       assert (Hex' : existsb (forbidden c) (fst (fst (next_line (permissive c) e s))) = true).
-      { destruct (next_line (permissive c) e s) as [[e1 o1] s1]. destruct o1; exact Hex. }
+      { destruct (next_line (permissive c) e s) as [[e1 o1] s1]. destruct o1; destruct v; exact Hex. }
       apply existsb_exists in Hex'. destruct Hex' as [x [Hin Hf]].
       pose proof (next_line_shape (permissive c) e s) as Hsh.
       rewrite forallb_forall in Hsh. specialize (Hsh x Hin).
